@@ -226,6 +226,12 @@ def run(prop, spec, tier, seed, t0):
         # sample of the deep stream
         gen_tier = "quick+deep-sample"
         ops = ops + bounded(gens.generate(prop, "thorough", seed + 7, budget=400000), 500000, 4000000, _random.Random(seed))
+    only = os.environ.get("MEMCHR_VERIF_ONLY_CFGS")
+    if only:
+        # development aid (tools/mechmut.py): restrict the run to some executor variants
+        keep = set(only.split(","))
+        ops = [(o, m) for (o, m) in ops if m.get("cfg", "host") in keep]
+        gen_tier += "+only:" + only
     model = impl = None
     crashes = []
     real, corr, stats = [], [], dict(families={}, distinct_nontrivial=0, agreed=0, strategies={})
